@@ -591,6 +591,8 @@ class ElectricFieldCtor(Contract):
         from .sm import Ruler_valid
         return [('static', PS_static(cx)), ('ps_axes', And(Ruler_valid(cx, ps + '._axis[0]', nx), Ruler_valid(cx, ps + '._axis[1]', ny))),
                 ('impedance', And(cx.f(z + '._nfreqs', 'u64') >= 2, cx.f(z + '._nfreqs', 'u64') < 2 ** 32, cx.len(z + '._data') == cx.f(z + '._nfreqs', 'u64'))),
+                # the constructor dereferences the impedance pointer at once (impedance->nFreqs())
+                ('impedance_not_null', Not(cx.arg('impedance').null) if getattr(cx.arg('impedance'), 'null', None) is not None else z3.BoolVal(True)),
                 ('revolutionpart', cx.a('revolutionpart') != 0), ('f_rev', cx.a('f_rev') != 0)]
 
     def assigns(self, cx):
